@@ -174,7 +174,7 @@ def handle : List String → Option String
   | ["classify", eco, sa] =>
     match eco with
     | "maven-spelling" => do let b ← Bytes.ofHex sa; some s!"ok z={b2s (zeroRun b)}"
-    | "pypi-spelling" => do let b ← Bytes.ofHex sa; some s!"ok u={b2s (Pep.earlyUpper b)}"
+    | "pypi-spelling" => do let b ← Bytes.ofHex sa; some s!"ok u={b2s (Pep.earlyUpper b)} ve={b2s (Pep.vEpoch b)}"
     | "nuget" => do let a ← nugetOf sa; some (classLine a.valid true [])
     | "gem" => do let a ← gemOf sa; some (classLine a.valid (Gem.inLib a) [("upper", !a.lower)])
     | "pypi" => do
